@@ -580,13 +580,24 @@ Proof.
   destruct (q_peek (fq w)); [|reflexivity]. rewrite IH. apply try_route_next_count.
 Qed.
 
+Lemma route_all_count j c fuel w : pc j (route_all c fuel w) = pc j w.
+Proof.
+  revert w. induction fuel as [|f IH]; intros w; simpl; [reflexivity|].
+  destruct (q_peek (fq w)); [|reflexivity].
+  destruct (qlen (fq (try_route_next c None w)) <? qlen (fq w)); [rewrite IH|]; apply try_route_next_count.
+Qed.
+
 Lemma resize_pool_count j c n w : pc j (resize_pool c n w) = pc j w.
 Proof.
   unfold resize_pool. destruct (n =? 0); [reflexivity|].
   destruct (pool_size w <? N.min 1000000 n).
-  - rewrite route_n_count.
-    transitivity (pc j (grow_pool c (N.to_nat (N.min 1000000 n - pool_size w)) (pool_size w) w));
-      [reflexivity|apply grow_pool_count].
+  - assert (G : pc j (set_pool_size (N.min 1000000 n)
+                       (grow_pool c (N.to_nat (N.min 1000000 n - pool_size w)) (pool_size w) w)) = pc j w).
+    { transitivity (pc j (grow_pool c (N.to_nat (N.min 1000000 n - pool_size w)) (pool_size w) w));
+        [reflexivity|apply grow_pool_count]. }
+    cbv zeta.
+    match goal with |- context [if ?b then _ else _] => destruct b end;
+      [rewrite route_n_count|rewrite route_all_count]; exact G.
   - destruct (N.min 1000000 n <? pool_size w); [|reflexivity].
     transitivity (pc j (shrink_pool c (N.to_nat (pool_size w - N.min 1000000 n)) (N.min 1000000 n) w));
       [reflexivity|apply shrink_pool_count].
